@@ -708,6 +708,15 @@ func (t *transpiler) evaluateItoa(itoa parser.Itoa, valueUsed bool) (expressionR
 	if err != nil {
 		return expressionResult{}, err
 	}
+
+	// A conversion whose result is not used emits nothing, keep the enclosing block non-empty.
+	if !valueUsed {
+		err = t.converter.Nop()
+
+		if err != nil {
+			return expressionResult{}, err
+		}
+	}
 	return expressionResult{
 		values: []string{result.firstValue()},
 	}, nil
